@@ -56,7 +56,8 @@ static void op_create(pv_rng* r, unsigned arg, bool armed) {
     int nreads = pv_w->time_reads; uint64_t seen[8]; memcpy(seen, pv_w->time_seen, sizeof seen);
     check_tags("create"); seq(0x10 + (arg & 7)); PV_COUNT("ops.create", 1);
     unsigned f = arg & 7;
-    int want = (f & ~M_mask) ? POLYSEED_ERR_UNSUPPORTED : armed ? POLYSEED_ERR_MEMORY : POLYSEED_OK;
+    bool refused = armed && pv_w->alloc_failed_in_call > 0;          /* a request was really refused during this call */
+    int want = (f & ~M_mask) ? POLYSEED_ERR_UNSUPPORTED : refused ? POLYSEED_ERR_MEMORY : POLYSEED_OK;
     if (st != want) { vio("create", "status", "create(0x%x) under mask %u%s -> %s, model %s", arg, M_mask, armed ? " (allocator failing)" : "", pv_status_name(st), pv_status_name(want)); if (st == POLYSEED_OK) pv_api_free(s); return; }
     if (st != POLYSEED_OK) return;
     pv_mseed m; memcpy(m.secret, script, 19); m.secret[18] &= 0x3f; m.birthday = pv_m_birthday_of(t); m.features = f;
@@ -79,7 +80,7 @@ static void op_load(pv_rng* r, bool armed) {
     pv_w->fail_countdown = 0; free(hb);
     check_tags("load"); seq(0x20 + k); PV_COUNT("ops.load", 1);
     pv_mseed want_seed; int want = pv_m_load(b, M_mask, &want_seed);
-    if (armed) want = POLYSEED_ERR_MEMORY;
+    if (armed && pv_w->alloc_failed_in_call > 0) want = POLYSEED_ERR_MEMORY;       /* (a library that validates before it allocates never gets as far as the refusal for a bad image) */
     if (st != want) { vio("load", "status", "load(%s) under mask %u%s -> %s, model %s", pv_hex(b, 32), M_mask, armed ? " (allocator failing)" : "", pv_status_name(st), pv_status_name(want)); if (st == POLYSEED_OK) pv_api_free(s); return; }
     if (st != POLYSEED_OK) return;
     put(i, s, &want_seed); observe_slot(i, "load", pv_randn(r, 4) == 0); g_state_changed = true;
@@ -104,7 +105,7 @@ static void op_decode(pv_rng* r, bool explicit_, bool armed) {
     pv_w->fail_countdown = 0;
     check_tags(explicit_ ? "decode_explicit" : "decode"); seq(0x30 + k + (explicit_ ? 8 : 0)); PV_COUNT("ops.decode", 1);
     int want = md.status;
-    if (armed && (want == POLYSEED_OK || want == POLYSEED_ERR_UNSUPPORTED)) want = POLYSEED_ERR_MEMORY;
+    if (armed && pv_w->alloc_failed_in_call > 0 && (want == POLYSEED_OK || want == POLYSEED_ERR_UNSUPPORTED)) want = POLYSEED_ERR_MEMORY;
     if (want >= 0 && st != want) vio(explicit_ ? "decode_explicit" : "decode", "status", "'%s' coin %u %s under mask %u%s -> %s, model %s", pv_esc(in), coin, explicit_ ? L->name_en : "(auto)", M_mask, armed ? " (allocator failing)" : "", pv_status_name(st), pv_status_name(want));
     else if (st == POLYSEED_OK && want == POLYSEED_OK) {
         if (!explicit_ && lo != pv_langs[md.lang].lib) vio("decode", "language", "detected language differs from the model");
